@@ -387,7 +387,8 @@ PROPS = {
     "C20": {
         "modules": ["BpModel.Props.C20"],
         "theorems": ["Bp.C20.C20_clean_pascal", "Bp.C20.C20_clean_upper", "Bp.C20.C20_warns_lower_first", "Bp.C20.C20_warns_underscore",
-                     "Bp.C20.C20_warns_not_upper", "Bp.C20.C20_enum_zero", "Bp.C20.C20_advisory", "Bp.C20.C20_check_exit"],
+                     "Bp.C20.C20_warns_not_upper", "Bp.C20.C20_enum_zero", "Bp.C20.C20_advisory", "Bp.C20.C20_check_exit",
+                     "Bp.C20.C20_token_lines", "Bp.C20.C20_newlines_are_linefeeds"],
         "explore": _c20,
         "correspondence": "CLI stderr / exit status / generated files with and without -q; lineno / token_col_start of every definition and reference vs positions computed from the source text",
         "rule": "multi-file programs printed by the harness' own printer in conforming / one-per-line / wild layouts; name-perturbed "
